@@ -412,7 +412,37 @@ class Tr:
 COQ_TY = {S: "T", V: "V3 T", M: "M3 T", B: "bool", "OM": "option (M3 T)"}
 
 
-def translate(source, pyname, fn):
+def while_body_fragment(node, first_target, n_stmts):
+    """The arithmetic of a loop body as a pseudo-function: the `n_stmts` consecutive statements of the (only)
+    `while` loop of `node` that start with the assignment to `first_target`; the last one must assign to a
+    subscripted array element, which becomes the returned value.  Everything else about the loop (queues, the
+    traversal order) is not translated."""
+    loops = [n for n in ast.walk(node) if isinstance(n, ast.While)]
+    if len(loops) != 1:
+        raise Unsupported("expected exactly one while loop")
+    body = loops[0].body
+    idx = [k for k, st in enumerate(body) if isinstance(st, ast.Assign) and len(st.targets) == 1
+           and isinstance(st.targets[0], ast.Name) and st.targets[0].id == first_target]
+    if len(idx) != 1:
+        raise Unsupported("statement assigning %s not found in the loop body" % first_target)
+    frag = body[idx[0]:idx[0] + n_stmts]
+    last = frag[-1]
+    if not (len(frag) == n_stmts and isinstance(last, ast.Assign) and len(last.targets) == 1
+            and isinstance(last.targets[0], ast.Subscript)):
+        raise Unsupported("the fragment does not end with an assignment to an array element")
+    # nothing else in the loop body may write positions
+    for st in body[:idx[0]] + body[idx[0] + n_stmts:]:
+        for sub in ast.walk(st):
+            if isinstance(sub, (ast.Assign, ast.AugAssign)):
+                tg = sub.targets[0] if isinstance(sub, ast.Assign) else sub.target
+                if isinstance(tg, ast.Subscript) and ast.unparse(tg.value) == ast.unparse(last.targets[0].value):
+                    raise Unsupported("another statement of the loop writes the position array")
+    new = ast.FunctionDef(name=node.name, args=ast.arguments(posonlyargs=[], args=[], kwonlyargs=[], kw_defaults=[], defaults=[]),
+                          body=frag[:-1] + [ast.Return(value=last.value)], decorator_list=[])
+    return ast.fix_missing_locations(new), ast.unparse(last.targets[0])
+
+
+def translate(source, pyname, fn, fragment=None):
     """source: text of the module; returns the Coq Definition text for function `pyname`."""
     tree = ast.parse(textwrap.dedent(source))
     node = None
@@ -422,6 +452,10 @@ def translate(source, pyname, fn):
             break
     if node is None:
         raise Unsupported("function %s not found" % pyname)
+    if fragment is not None:
+        node, written = while_body_fragment(node, *fragment[:2])
+        if written != fragment[2]:
+            raise Unsupported("the loop writes %s, expected %s" % (written, fragment[2]))
     argnames = [a.arg for a in node.args.args if a.arg != "self" and a.arg not in fn.ignored_params]
     want = [p for p, _ in fn.params]
     if argnames != want:
@@ -493,6 +527,12 @@ def generate(repo):
     fp.attrs["atomtarget.position"] = ("target_position", V)
     fp.attrs["self.scale_factor"] = ("scale_factor", S)
     out.append(translate(em_src, "_proyect_point", fp))
+    tm_src = open(os.path.join(repo, "gaddlemaps", "_transform_molecule.py")).read()
+    fm = Fn("pull_gen", [], "V3 T")
+    fm.attrs["atoms_pos[ind1]"] = ("p1", V)
+    fm.attrs["atoms_pos[ind2]"] = ("p2", V)
+    fm.attrs["bond"] = ("bond", S)
+    out.append(translate(tm_src, "move_mol_atom", fm, fragment=("diferencia", 4, "atoms_pos[ind2]")))
     out.append("End KernelsGen.\n")
     return "\n".join(out)
 
